@@ -27,6 +27,7 @@ type Op struct {
 	Pattern string `json:"pattern,omitempty"` // random | zero | plus | minus | same | onediff
 	Seed    uint64 `json:"seed,omitempty"`
 	Bad     string `json:"bad,omitempty"` // empty | toomany | length
+	Dst     string `json:"dst,omitempty"` // squeeze: what the caller puts into dst - "" (nil entries) | carved | reuse
 	M       int    `json:"m,omitempty"`   // reset: batch size of the next history of this handle
 }
 
@@ -49,6 +50,7 @@ type handle struct {
 	m         int
 	lanes     []ref.Sponge // m single-lane reference sponges
 	squeezing bool
+	lastDst   []trinary.Trits // what the previous Squeeze of this handle returned
 
 	// owned by the actor goroutine until it has exited
 	in      chan opMsg
@@ -78,6 +80,9 @@ func (e logEntry) String() string {
 	case "absorb":
 		return fmt.Sprintf("#%d.absorb(%dx%d,%s)", e.idx, e.m, e.n, e.extra)
 	case "squeeze":
+		if e.extra != "" {
+			return fmt.Sprintf("#%d.squeeze(%dx%d,dst=%s)", e.idx, e.m, e.n, e.extra)
+		}
 		return fmt.Sprintf("#%d.squeeze(%dx%d)", e.idx, e.m, e.n)
 	case "reset":
 		return fmt.Sprintf("#%d.reset(m=%d)", e.idx, e.m)
@@ -357,7 +362,24 @@ func (hd *handle) step(msg opMsg) (clone *handle) {
 		hd.probes[probeKey("absorb_blocks_", blocks)] = 1
 		e.extra = op.Pattern
 	case "squeeze":
+		// Squeeze documents nothing about the contents of dst on entry and overwrites every entry, so a caller may
+		// pass anything: nil entries, pieces carved from one flat buffer (disjoint lengths, capacities running into
+		// the next lane's piece), or the slices a previous call returned
 		dst := make([]trinary.Trits, hd.m)
+		switch op.Dst {
+		case "carved":
+			flat := make(trinary.Trits, hd.m*ref.HashLen)
+			for j := range dst {
+				dst[j] = flat[j*ref.HashLen : (j+1)*ref.HashLen]
+			}
+			hd.probes["squeeze_into_carved_buffer"] = 1
+		case "reuse":
+			if len(hd.lastDst) == hd.m {
+				dst = hd.lastDst
+				hd.probes["squeeze_into_previous_output"] = 1
+			}
+		}
+		hd.lastDst = dst
 		if err := hd.real.Squeeze(dst, n); err != nil {
 			hd.violate("wrong-error", fmt.Sprintf("%s: valid Squeeze of %d lanes x %d trits returned %q", where(), hd.m, n, err))
 			return
@@ -380,6 +402,7 @@ func (hd *handle) step(msg opMsg) (clone *handle) {
 			hd.changes++
 			hd.probes[probeKey("squeeze_blocks_", blocks)] = 1
 		}
+		e.extra = op.Dst
 	case "clone":
 		if msg.live >= 4 {
 			return
@@ -480,6 +503,11 @@ func Gen(seed uint64, tier string) *Config {
 		c.M = 1 + r.IntN(8) // keep most quick histories cheap for the reference
 	}
 	n := 4 + r.IntN(13)
+	long := r.IntN(40) == 0 // a few long histories with many blocks per call: counters, tables built lazily, ...
+	if long {
+		n = 20 + r.IntN(30)
+		c.M = 1 + r.IntN(3)
+	}
 	patterns := []string{"random", "random", "random", "zero", "plus", "minus", "same", "onediff"}
 	sq := []bool{false} // the generator tracks which handles are squeezing, to respect the sponge discipline
 	for len(c.Ops) < n {
@@ -495,6 +523,9 @@ func Gen(seed uint64, tier string) *Config {
 			case 1:
 				o.Blocks = 4 + r.IntN(6) // many blocks in one call
 			}
+			if long && r.IntN(4) == 0 {
+				o.Blocks = 10 + r.IntN(40)
+			}
 		case x < 62:
 			o.Kind, o.Blocks = "squeeze", 1+r.IntN(3)
 			switch r.IntN(20) {
@@ -502,6 +533,15 @@ func Gen(seed uint64, tier string) *Config {
 				o.Blocks = 0
 			case 1:
 				o.Blocks = 4 + r.IntN(6)
+			}
+			if long && r.IntN(4) == 0 {
+				o.Blocks = 10 + r.IntN(40)
+			}
+			switch r.IntN(8) {
+			case 0:
+				o.Dst = "carved"
+			case 1:
+				o.Dst = "reuse"
 			}
 			if o.Blocks > 0 {
 				sq[h] = true
@@ -515,6 +555,9 @@ func Gen(seed uint64, tier string) *Config {
 			o.Kind, o.M = "reset", pickM()
 			if tier != "thorough" && o.M > 8 && r.IntN(3) != 0 {
 				o.M = 1 + r.IntN(8)
+			}
+			if long {
+				o.M = 1 + r.IntN(3)
 			}
 			sq[h] = false
 		case x < 83:
